@@ -122,7 +122,12 @@ def history(draw):
                     op[f] = draw(gen.fv(w))
             ops.append(op)
         elif kind == "inq":
-            ops.append({"k": "inq", "page": draw(st.sampled_from([None, 0x80, 0x83, 0x00]))})
+            op = {"k": "inq", "page": draw(st.sampled_from([None, 0x80, 0x83, 0x00]))}
+            if op["page"] is None and draw(st.booleans()):
+                op["alloclen"] = draw(st.sampled_from([36, 58, 64, 96, 128, 255]))
+            ops.append(op)
+        elif kind == "cap16" and draw(st.booleans()):
+            ops.append({"k": "cap16", "alloclen": draw(st.sampled_from([12, 16, 32, 64, 252]))})
         else:
             ops.append({"k": kind})
     ident = {
@@ -254,15 +259,21 @@ def run_history(case, transport):
                 obs.append(("cap10", r["returned_lba"], r["block_length"]))
             elif k == "cap16":
                 with lib("readcapacity16"):
-                    r = s.readcapacity16().result
+                    r = (s.readcapacity16(alloclen=op["alloclen"]) if "alloclen" in op else s.readcapacity16()).result
                 want = dict(case["rc16"], returned_lba=cap - 1, block_length=bs)
+                if op.get("alloclen", 32) < 16:
+                    # the caller asked for the first 12 bytes only: geometry, not the protection / provisioning fields
+                    want = {"returned_lba": cap - 1, "block_length": bs}
                 for kk, vv in want.items():
                     expect(r.get(kk) == vv, "mismatch:readcapacity16:" + kk, got=r.get(kk), want=vv)
                 obs.append(("cap16", r["returned_lba"], r["block_length"]))
             else:
                 page = op["page"]
                 with lib("inquiry"):
-                    r = (s.inquiry() if page is None else s.inquiry(evpd=1, page_code=page, alloclen=252)).result
+                    if page is None:
+                        r = (s.inquiry(alloclen=op["alloclen"]) if "alloclen" in op else s.inquiry()).result
+                    else:
+                        r = s.inquiry(evpd=1, page_code=page, alloclen=252).result
                 expect(r.get("peripheral_device_type") == case["devtype"], "mismatch:inquiry:peripheral_device_type",
                        got=r.get("peripheral_device_type"))
                 if page is None:
